@@ -136,7 +136,7 @@ def run(prog, rep):
     # BTSString.write zero-fills after the terminator (C13's str-terminated) - needed for canonical re-encoding
     from ..strings import WriteAnalysis
     wa = WriteAnalysis(prog)
-    for b, st, nonneg, guards in wa.returns:
+    for b, st, nonneg, guards, _value in wa.returns:
         parts = b.parts if b is not None else []
         if len(parts) >= 2 and parts[0][0] == "enc" and all(p[0] == "zeros" or (p[0] == "const" and set(p[1]) <= {0}) for p in parts[1:]):
             rep.ok("writer-pad-constant", "BTSString.write zero-fills everything after the text")
